@@ -464,3 +464,33 @@ Proof.
       split; [reflexivity|]. split; [cbn [net_run]; rewrite Hs; exact Hp1|].
       split; [exact Hp2|]. split; [exact HR2|]. split; [exact Hf | exact HQ].
 Qed.
+
+(* the same, also reporting the step by which the goal was reached: it starts in a J-state *)
+Theorem fair_leads_under_last (Dt Da : Z) (R : net -> Prop) (J Q : fair_aux -> net -> Prop) (x : side) (T : Z) :
+  (forall fa st, J fa st -> net_now st x <= T) ->
+  (forall fa st ev st', R st -> R st' -> J fa st -> fair_ev fa st ev -> net_step st ev = Ok st' ->
+     Q (fa_after Dt Da fa ev st') st' \/ J (fa_after Dt Da fa ev st') st') ->
+  forall evs fa st st',
+    J fa st -> run_all R st evs -> fair_run Dt Da fa st evs -> net_run st evs = Ok st' ->
+    T < net_now st' x ->
+    exists pre post fa1 st1,
+      evs = pre ++ post /\ net_run st pre = Ok st1 /\ net_run st1 post = Ok st' /\
+      run_all R st1 post /\ fair_run Dt Da fa1 st1 post /\ Q fa1 st1 /\
+      exists fa0 st0 ev0, J fa0 st0 /\ R st0 /\ fair_ev fa0 st0 ev0 /\ net_step st0 ev0 = Ok st1 /\
+                          fa1 = fa_after Dt Da fa0 ev0 st1.
+Proof.
+  intros Hclock Hstep. induction evs as [|ev r IH]; intros fa st st' HJ HR Hfair Hrun Hpast.
+  - cbn [net_run] in Hrun. inversion Hrun; subst. specialize (Hclock _ _ HJ). lia.
+  - cbn [net_run] in Hrun. apply obind_ok in Hrun. destruct Hrun as (st1 & Hs & Hr).
+    cbn [fair_run] in Hfair. destruct Hfair as (Hev & Hrest). rewrite Hs in Hrest.
+    cbn [run_all] in HR. destruct HR as (HR0 & HR1). rewrite Hs in HR1.
+    destruct (Hstep _ _ _ _ HR0 (run_all_here _ _ _ HR1) HJ Hev Hs) as [HQ | HJ'].
+    + exists [ev], r, (fa_after Dt Da fa ev st1), st1.
+      split; [reflexivity|]. split; [cbn [net_run]; rewrite Hs; reflexivity|].
+      split; [exact Hr|]. split; [exact HR1|]. split; [exact Hrest|]. split; [exact HQ|].
+      exists fa, st, ev. auto.
+    + destruct (IH _ _ _ HJ' HR1 Hrest Hr Hpast) as (pre & post & fa1 & st2 & -> & Hp1 & Hp2 & HR2 & Hf & HQ & Hlast).
+      exists (ev :: pre), post, fa1, st2.
+      split; [reflexivity|]. split; [cbn [net_run]; rewrite Hs; exact Hp1|].
+      split; [exact Hp2|]. split; [exact HR2|]. split; [exact Hf|]. split; [exact HQ | exact Hlast].
+Qed.
